@@ -1,5 +1,6 @@
 import DmrVerif.Driver.Loop
+import DmrVerif.Driver.Ipsc
 
-/-! model driver for property C13 (stub: no operations registered yet) -/
+/-! model driver for property C13 (Hytera IPSC frames) -/
 
-def main : IO Unit := Dmr.Driver.runMain []
+def main : IO Unit := Dmr.Driver.runMain [Dmr.Driver.ipscOp]
